@@ -37,6 +37,11 @@ COSTS = {
     "int32": st.one_of(st.integers(2**31 - 40, 2**31 - 1), st.integers(-2**31, -2**31 + 40), gen.small_int_costs),
     # near-ties on a large offset: relative differences below 1e-9, absolute ones of a few units
     "offset": st.integers(0, 6).map(lambda k: k + 10**10),
+    # integers no float represents exactly (an update or a join must leave the other cells as they are)
+    "huge": st.one_of(st.integers(2**53 + 1, 2**53 + 9), st.just(10**18 + 7), st.just(-(10**18) - 3), gen.small_int_costs),
+    # hard constraints: infinite entries of one sign (both signs in one sum would be nan)
+    "posinf": st.one_of(st.just("inf"), gen.small_int_costs, gen.small_int_costs),
+    "neginf": st.one_of(st.just("-inf"), gen.small_int_costs, gen.small_int_costs),
 }
 DTYPES = {"int8": "int8", "int32": "int32"}
 
@@ -67,6 +72,8 @@ def cases(draw):
         case["assignment"] = [draw(st.sampled_from(domains["d%d" % names.index(s)])) for s in scope]
         case["new_value"] = draw(COSTS[ck] if ck in DTYPES else
                                  st.one_of(COSTS[ck], gen.small_int_costs, gen.dyadic_costs))
+        if isinstance(case["new_value"], str) and not _has_float(build.np_table(rels[0]).tolist()):
+            case["new_value"] = 0   # an infinite value only goes into a table that already stores floats
         case["form"] = draw(st.sampled_from(["dict", "list"]))
         # the dict form names its variables: its key order is free (a permutation seed, 0 = dimension order)
         case["key_order"] = draw(st.integers(0, 23))
@@ -123,7 +130,7 @@ def run_case(case):
             ass = dict(ordered)
             if list(ass) != list(d0["scope"]):
                 labels.append("dict-keys-permuted")
-            new = case["new_value"]
+            new = oracles.num(case["new_value"])
             with under_test():
                 res = r0.set_value_for_assignment(ass if case["form"] == "dict" else list(case["assignment"]), new)
                 other = r0.set_value_for_assignment(list(case["assignment"]) if case["form"] == "dict" else ass, new)
@@ -149,7 +156,9 @@ def run_case(case):
                     with under_test():
                         got = r(**a) if a else r.get_value_for_assignment({})
                     got = got.item() if hasattr(got, "item") else got
-                    if not oracles.close(got, ref(a), 0):
+                    # no arithmetic is involved: every other cell must hold the very number it held (python's
+                    # int/float comparison is exact, unlike a difference computed in floats)
+                    if not (got == ref(a)):
                         why = "set(%s): %s value %r != expected %r at %r" % (case["form"], which, got, ref(a), a)
                         break
             if why:
